@@ -106,7 +106,8 @@ std::string simCase(const vio::Case &c) {
   size_t consumed = (in.fail() || in.eof()) ? c.str("input").size() : (size_t)in.tellg();
   p->~Processor();
   free(buf);
-  j.str("ended", ended).num("run_return", rv).unum("cycles", cycles).str("thrown", thrown).hex("console", out.str())
+  j.str("ended", ended).num("run_return", rv).unum("cycles", cycles).str("thrown", thrown)
+   .hex("console", out.str().substr(0, 2048)).unum("console_bytes", out.str().size())
    .unum("consumed", consumed).unum("reads_before_write", mon.readsBeforeWrite).raw("events", vio::jsonArray(events));
   if (!mismatch.empty()) j.raw("mismatch", mismatch);
   unlink("s.bin");
